@@ -21,23 +21,35 @@ theorem fieldname_main (decVal : Nat → Option Nat)
     (hdec : ∀ c, isAsciiDigit c = true → decVal c = some (c - 48))
     (t : List Nat) (h : fieldNameInDomain decVal t = true) :
     accepted (parseFieldName t) = accepted (fieldNameSplit decVal t) := by
-  simp only [fieldNameInDomain, Bool.and_eq_true, List.all_eq_true] at h
-  obtain ⟨hc, hr⟩ := h
+  simp only [fieldNameInDomain, List.all_eq_true] at h
   have happ := takeName_append t
-  have hc' : ∀ c ∈ t, charOk decVal c = true := fun c hx => by simpa [charOk] using hc c hx
-  have hint := integer_eq decVal hdec (takeName t).1 (takeName t).2
-    (fun c hx => hc' c (by rw [← happ]; simp [hx])) (by rw [happ]; exact hr)
+  have hc' : ∀ c ∈ t, charOk decVal c = true := fun c hx => by simpa [charOk] using h c hx
+  have hint := integer_eq decVal hdec (takeName t).1
+    (fun c hx => hc' c (by rw [← happ]; simp [hx]))
   have hrest : restOk decVal (takeName t).2 :=
-    restOk_append decVal (takeName t).1 _ (by rw [happ]; exact ⟨hc', 0, hr⟩)
+    restOk_append decVal (takeName t).1 _ (by rw [happ]; exact hc')
   have hparts := parts_eq decVal hdec (t.length + 1) _ hrest
-  simp only [parseFieldName, fieldNameSplit, ← takeName_eq, hint]
+  simp only [parseFieldName, fieldNameSplit, ← takeName_eq]
   generalize partsLoop (t.length + 1) (takeName t).2 = x at hparts ⊢
   generalize accessorsLoop decVal (t.length + 1) (takeName t).2 = y at hparts ⊢
   by_cases hf : (takeName t).1 = []
-  · simp only [hf, ↓reduceIte, parseUsize]
-    cases x <;> cases y <;> simp_all
+  · simp only [hf, ↓reduceIte, getInteger]
+    cases x <;> cases y <;> simp_all [accepted]
   · simp only [hf, ↓reduceIte]
-    cases parseUsize (takeName t).1 <;> cases x <;> cases y <;> simp_all
+    generalize getInteger decVal (takeName t).1 = u at hint ⊢
+    generalize parseIndex (takeName t).1 = v at hint ⊢
+    cases u with
+    | error e1 =>
+      cases v with
+      | error e2 => simp [accepted]
+      | ok w => simp [accepted] at hint
+    | ok w1 =>
+      cases v with
+      | error e2 => simp [accepted] at hint
+      | ok w2 =>
+        simp [accepted] at hint
+        subst hint
+        cases w1 <;> cases x <;> cases y <;> simp_all [accepted]
 
 /-- every brace doubled (what a caller writes to get literal braces) -/
 def escapeBraces : List Nat → List Nat
